@@ -1689,7 +1689,7 @@ def _literal(e):
 
 
 def _literal_list(e):
-    return isinstance(e, ast.List) and all(_literal(x) or _literal_list(x) for x in e.elts)
+    return isinstance(e, (ast.List, ast.Tuple)) and all(_literal(x) or _literal_list(x) for x in e.elts)
 
 
 def module_constants(tree):
